@@ -18,4 +18,5 @@ INVARIANT TcIffDropped
 INVARIANT StillParses
 INVARIANT StreamFramed
 INVARIANT NegotiateLaws
+INVARIANT Emit
 CHECK_DEADLOCK FALSE
